@@ -357,6 +357,9 @@ func RunQuery(r QueryRun) (o *Outcome) {
 			} else {
 				q.Cancel()
 			}
+			if o.ExecStart != 0 && o.ExecEnd == 0 && r.Acct != nil {
+				r.Acct.NoteClientCancel()
+			}
 		})
 	} else {
 		close(clientDone)
